@@ -84,8 +84,10 @@ func genC21Contended() *rapid.Generator[c21ContCase] {
 			c.World = CursorWorldSpec{Files: 1, Blocks: pick(t, "sfblocks", []int{6, 12}), Rows: pick(t, "sfrows", []int{10, 70})}
 			c.QConc = pick(t, "sfqconc", []int{3, 4, 8})
 			c.LatencyUs = pick(t, "sflat", []int{200, 1000})
-			c.CloseLatencyUs = pick(t, "sfclat", []int{3000, 1000})
-			c.Fault = &CursorFault{Kind: pick(t, "sffk", []string{"Read", "Read", "RClose"}), N: rapid.IntRange(3, 20).Draw(t, "sffn")}
+			c.CloseLatencyUs = pick(t, "sfclat", []int{3000, 1000, 8000})
+			// a read in the middle of the file's scan (one read per block, plus the
+			// filter region's for a bloom query): siblings are idle, others still busy
+			c.Fault = &CursorFault{Kind: pick(t, "sffk", []string{"Read", "Read", "Read", "RClose"}), N: rapid.IntRange(2, c.World.Blocks-2).Draw(t, "sffn")}
 			if c.Fault.Kind == "RClose" {
 				// a handle whose Close reports an error (it is closed all the same):
 				// the first handles the pool closes, while their siblings are idle
